@@ -25,7 +25,10 @@
 (***************************************************************************)
 EXTENDS Naturals, Sequences, FiniteSets, TLC, Json, GenExecFrag
 
-CONSTANTS Checks, TraceFile
+CONSTANTS Checks, TraceFile,
+          Deviations    \* named deviations of the pinned implementation that are recorded as OPEN known findings
+                        \* (/verif/known_findings.json); the harness passes their names, reports each run that
+                        \* needs one as KNOWN-FINDING, and passes {} when the file does not list them
 TraceLog == ndJsonDeserialize(TraceFile)
 
 VARIABLES l,       \* next line of the trace
@@ -56,12 +59,18 @@ Eval(t) ==
     [] t.op = "arg"  -> cur.args[t.p]
     [] t.op = "lit"  -> t.v
     [] t.op = "call" -> t.fn \o "(" \o Eval(t.a) \o ")"
+    [] t.op = "via"  -> cur.src[t.p]
 
+\* leaves whose source path crosses a nil pointer in this run: the value is undefined - any value is
+\* permitted there, but never a panic (C02)
+Undefined == {p \in Assigned : (LET k == CHOOSE k \in Kinds : p \in DOMAIN Frag[k].assign
+                                    t == Frag[k].assign[p] IN t.op = "via" /\ cur.src[t.fn] = "nil")}
 AfterPre == IF cur.pre.on /\ cur.pre.dstPtr THEN Override(cur.dst0, HookWrites("pre")) ELSE cur.dst0
 \* nil source slices leave the destination as it was; everything else takes the plan's value
 PlanVal(p) == LET k == CHOOSE k \in Kinds : p \in DOMAIN Frag[k].assign
                   t == Frag[k].assign[p] IN
               IF t.op = "slice" THEN (IF cur.src[t.p] = "nil" THEN AfterPre[p] ELSE cur.src[t.p])
+              ELSE IF p \in Undefined THEN AfterPre[p]
               ELSE Eval(t)
 AllAssigned == [p \in DOMAIN cur.dst0 |-> IF p \in Assigned THEN PlanVal(p) ELSE AfterPre[p]]
 Final == IF cur.post.on /\ cur.post.dstPtr THEN Override(AllAssigned, HookWrites("post")) ELSE AllAssigned
@@ -96,18 +105,20 @@ TCall == /\ IsEvent("call") /\ E.site \notin {"Pre", "Post"} /\ phase = "body"
 \* C10: the postprocess hook runs last, once, after every field has been assigned
 TPost == /\ IsEvent("call") /\ E.site = "Post" /\ phase = "body" /\ cur.post.on
          /\ (On("errors") => failed = "nil")
-         /\ (On("hooks") => done = Sites /\ E.seen = AllAssigned /\ E.srcSeen = cur.src /\ E.argsSeen = cur.post.hargs)
+         /\ (On("hooks") => done = Sites /\ (\A p \in DOMAIN AllAssigned \ Undefined : E.seen[p] = AllAssigned[p]) /\ E.srcSeen = cur.src /\ E.argsSeen = cur.post.hargs)
          /\ (E.fail => cur.post.err)
          /\ phase' = "post" /\ failed' = (IF E.fail /\ failed = "nil" THEN "Post" ELSE failed) /\ UNCHANGED <<cur, done>>
 
 Finished == failed # "nil" \/ (IF cur.post.on THEN phase = "post" ELSE (phase = "body" /\ done = Sites))
 TEnd == /\ IsEvent("end") /\ phase \in {"body", "post"}
-        /\ (On("hooks") => (failed = "nil" => Finished))                  \* C10: no hook or call skipped
+        /\ (On("hooks") => (failed = "nil" /\ ~E.panicked => Finished))  \* C10: no hook or call skipped
         /\ (On("errors") => E.err = failed)                                \* C07: that very error, or nil
-        /\ (On("panic") => ~E.panicked)                                    \* C02: no panic
+        /\ (On("panic") => \/ ~E.panicked                                 \* C02: no panic
+                            \* named deviation: a :map path through a nil pointer member is dereferenced
+                            \/ ("nil-pointer-on-mapped-path" \in Deviations /\ Undefined # {}))
         /\ (On("src") => E.src = cur.src /\ E.args = cur.args)              \* C02: operands unmodified
         /\ (failed = "nil" /\ ~E.panicked =>
-              /\ (On("values") => \A p \in Assigned \ SliceLeaves : E.dst[p] = Final[p])      \* C02: exactly the matched values
+              /\ (On("values") => \A p \in (Assigned \ SliceLeaves) \ Undefined : E.dst[p] = Final[p])      \* C02: exactly the matched values
               /\ (On("frame")  => \A p \in DOMAIN cur.dst0 \ Assigned : E.dst[p] = Final[p])    \* C02: everything else untouched
               /\ (On("slices") => \A p \in SliceLeaves :
                                      /\ E.dst[p] = Final[p]                                     \* C16: same length, same elements; nil stays nil
